@@ -6,7 +6,6 @@ import (
 	"strings"
 
 	"github.com/onflow/cadence"
-	"github.com/onflow/cadence/common"
 
 	"verif/harness/audit"
 	"verif/harness/core"
@@ -255,7 +254,7 @@ func runC02(c *core.Ctx) {
 			}
 			preLedger, preUUID := h.Ledger.Clone(), h.UUID
 			h.ResetTrace()
-			o := h.RunTx(eng, tx.Source, nil, []common.Address{host.Addr(1)}, nil)
+			o := h.RunTx(eng, tx.Source, nil, signersFor(tx.Source), nil)
 			c.Eval(1)
 			post, err := audit.Census(h.Ledger)
 			if err != nil {
@@ -298,7 +297,7 @@ func runC02(c *core.Ctx) {
 						h2.Codes[k] = v
 					}
 					h2.UUID = preUUID
-					o2 := h2.RunTx(eng, cand, nil, []common.Address{host.Addr(1)}, limited())
+					o2 := h2.RunTx(eng, cand, nil, signersFor(cand), limited())
 					if o2.Err != nil || o2.Escaped != nil {
 						return h2, nil, nil, false
 					}
